@@ -7,7 +7,7 @@ from engine.cfg import cfg_of
 from engine.cells import Explorer, Iv, Const, TOP
 from engine.defuse import defuse_of
 from engine.embedded import struct_sites, fmt_fields, fmt_size, INT_RANGE
-from .common import calls_named, package_calls
+from .common import calls_named, package_calls, sym_paths
 
 EXPLANATION = (
     "Static writer/reader agreement for the WebSocket frame codec and a shape rule for the read path. Decides: (R1) by interval "
@@ -194,24 +194,36 @@ def _parents(node, stop):
 def r4(ctx):
     ops = {"Ping": "Ping", "Pong": "Pong", "Close": "Close", "Text": "Text", "Binary": "Binary"}
     n = 0
+    envs = {}
     for name, op in ops.items():
         f = ctx.fn(F + name)
         n += 1
-        asg = [(norm(s.targets[0]), norm(s.value), s.lineno) for s in walk_own(f.node) if isinstance(s, ast.Assign)]
-        d = {t: v for (t, v, l) in asg}
-        last_payload = max([l for (t, v, l) in asg if t == "frame.payload"] or [0])
-        plen = [l for (t, v, l) in asg if t == "frame.payload_length"]
-        ok = d.get("frame.flags.fin") == "1" and d.get("frame.flags.opcode") == "WebSocketOpCode.%s" % op and d.get("frame.payload_length") == "len(frame.payload)" \
-            and len(plen) == 1 and plen[0] > last_payload > 0 and d.get("frame") == "WebSocketFrame()"
-        rets = [norm(r.value) for r in walk_own(f.node) if isinstance(r, ast.Return)]
-        ctx.check(ok and rets == ["frame"] and f.is_static, "C18.R4", f, "factory %s: fin=1, opcode=%s, payload_length=len(payload) after the payload is final" % (name, op), witness=d)
+        paths = sym_paths(f)
+        if paths is None:
+            ctx.undecided("C18.R4", f, "factory %s is not a loop-free builder" % name)
+            continue
+        paths = [p for p in paths if not p[2].startswith("#raise")]
+        ok = bool(paths) and f.is_static
+        wit = []
+        for (conds, env, ret) in paths:
+            # the returned object is a fresh frame whose announced length is the length of the very bytes it carries
+            var = [k for k, v in env.items() if v == "WebSocketFrame()" and k.isidentifier()]
+            fr = var[0] if len(var) == 1 else "?"
+            pay = env.get(fr + ".payload")
+            good = ret == "WebSocketFrame()" and pay is not None and env.get(fr + ".payload_length") == "len(%s)" % pay \
+                and env.get(fr + ".flags.fin") == "1" and env.get(fr + ".flags.opcode") == "WebSocketOpCode.%s" % op
+            ok = ok and good
+            wit.append({k: v for k, v in env.items() if k.startswith(fr + ".")})
+            envs.setdefault(name, []).append(pay)
+        ctx.check(ok, "C18.R4", f, "factory %s: fin=1, opcode=%s, payload_length=len(payload) after the payload is final" % (name, op), witness=wit)
     ctx.expect("C18.R4", "frame factories", n, 5)
     cl = ctx.fn(F + "Close")
     p = [s for s in struct_sites(cl, ctx.folder) if s.kind == "pack"]
     ctx.check(len(p) == 1 and fmt_fields(p[0].fmt) == (">", ["H"]), "C18.R4", cl, "close status is a network-order 16-bit prefix of the payload")
     tx = ctx.fn(F + "Text")
-    enc = calls_named(tx, "encode")
-    ctx.check(len(enc) == 1 and norm(enc[0].args[0]) == "'utf-8'", "C18.R4", tx, "text payload is UTF-8")
+    utf8 = {"%s.encode('utf-8')", "%s.encode()", "%s.encode(encoding='utf-8')", "bytes(%s, 'utf-8')", "%s.encode('utf8')", "%s.encode('UTF-8')"}
+    pays = envs.get("Text", [])
+    ctx.check(bool(pays) and all(p in {u % tx.params[0] for u in utf8} for p in pays), "C18.R4", tx, "text payload is UTF-8", witness=pays)
     init = ctx.fn(F + "__init__")
     d = {norm(s.targets[0]): norm(s.value) for s in walk_own(init.node) if isinstance(s, ast.Assign)}
     ctx.check(d.get("self.flags.mask") == "0" and d.get("self.payload_length") == "0", "C18.R4", init, "a new frame is unmasked and empty")
